@@ -1,1 +1,154 @@
-fn main(){}
+//! Correspondence harness: runs the real tracing-tunnel / tracing-capture code on generated,
+//! enumerated and corpus cases and prints observations in the line protocol of the Lean driver.
+
+#![allow(dead_code)]
+mod dynsite;
+mod gen;
+mod json;
+mod proto;
+mod rng;
+mod suites;
+
+use std::{
+    collections::{BTreeMap, HashSet},
+    fs,
+    io::Write,
+    panic::{catch_unwind, AssertUnwindSafe},
+    path::PathBuf,
+};
+
+use suites::{Outcome, Tier};
+
+fn arg<'a>(args: &'a [String], key: &str) -> Option<&'a str> {
+    args.iter().position(|a| a == key).and_then(|i| args.get(i + 1)).map(String::as_str)
+}
+
+fn read_case_file(path: &std::path::Path) -> Vec<String> {
+    fs::read_to_string(path)
+        .unwrap_or_else(|e| panic!("cannot read {}: {e}", path.display()))
+        .lines()
+        .map(str::trim_end)
+        .filter(|l| !l.is_empty() && !l.starts_with('#') && !l.starts_with("case "))
+        .map(str::to_owned)
+        .collect()
+}
+
+fn run_guarded(suite: &dyn suites::Suite, lines: &[String]) -> Outcome {
+    match catch_unwind(AssertUnwindSafe(|| suite.run(lines))) {
+        Ok(o) => o,
+        Err(p) => {
+            let msg = p
+                .downcast_ref::<String>()
+                .cloned()
+                .or_else(|| p.downcast_ref::<&str>().map(|s| (*s).to_owned()))
+                .unwrap_or_else(|| "<non-string panic>".into());
+            Outcome {
+                obs: vec!["harness-panic".into()],
+                fails: vec![format!("PANIC escaped the case runner: {msg}")],
+                tags: vec!["panic".into()],
+            }
+        }
+    }
+}
+
+fn main() {
+    let args: Vec<String> = std::env::args().collect();
+    if args.len() < 3 {
+        eprintln!("usage: tt-harness run <suite> --seed S --n N --tier quick|thorough --out DIR [--corpus DIR]\n       tt-harness replay <suite> FILE");
+        std::process::exit(2);
+    }
+    std::panic::set_hook(Box::new(|_| {})); // panics are reported through observations
+    let suite_name = args[2].clone();
+    let suite = suites::by_name(&suite_name).unwrap_or_else(|| {
+        eprintln!("unknown suite {suite_name}");
+        std::process::exit(2)
+    });
+    match args[1].as_str() {
+        "replay" => {
+            let lines = read_case_file(std::path::Path::new(&args[3]));
+            let o = run_guarded(suite.as_ref(), &lines);
+            println!("case 0 replay");
+            for l in &o.obs {
+                println!("{l}");
+            }
+            for f in &o.fails {
+                println!("FAIL {f}");
+            }
+        }
+        "run" => {
+            let seed: u64 = arg(&args, "--seed").and_then(|s| s.parse().ok()).unwrap_or(0);
+            let n: usize = arg(&args, "--n").and_then(|s| s.parse().ok()).unwrap_or(100);
+            let tier = if arg(&args, "--tier") == Some("thorough") { Tier::Thorough } else { Tier::Quick };
+            let focus = arg(&args, "--focus").unwrap_or("").to_owned();
+            let out_dir = PathBuf::from(arg(&args, "--out").unwrap_or("."));
+            fs::create_dir_all(&out_dir).unwrap();
+            let mut cases: Vec<(String, Vec<String>)> = vec![];
+            if let Some(dir) = arg(&args, "--corpus") {
+                let mut files: Vec<_> = fs::read_dir(dir).map(|d| d.filter_map(Result::ok).map(|e| e.path()).collect()).unwrap_or_default();
+                files.sort();
+                for f in files {
+                    if f.extension().is_some_and(|e| e == "case") {
+                        cases.push((format!("corpus:{}", f.file_name().unwrap().to_string_lossy()), read_case_file(&f)));
+                    }
+                }
+            }
+            if arg(&args, "--no-enum").is_none() {
+                for (i, c) in suite.enumerate(tier, &focus).into_iter().enumerate() {
+                    cases.push((format!("enum:{i}"), c));
+                }
+            }
+            let n_fixed = cases.len();
+            let mut rng = rng::Rng::new(seed);
+            for i in 0..n {
+                let mut r = rng.fork(i as u64);
+                cases.push((format!("rand:{seed}:{i}"), suite.gen(&mut r, tier, i, &focus)));
+            }
+
+            let mut f_in = std::io::BufWriter::new(fs::File::create(out_dir.join(format!("{suite_name}.in"))).unwrap());
+            let mut f_impl = std::io::BufWriter::new(fs::File::create(out_dir.join(format!("{suite_name}.impl"))).unwrap());
+            let mut f_or = std::io::BufWriter::new(fs::File::create(out_dir.join(format!("{suite_name}.oracle"))).unwrap());
+            let mut tags: BTreeMap<String, usize> = BTreeMap::new();
+            let mut distinct: HashSet<String> = HashSet::new();
+            let mut distinct_nontrivial = 0usize;
+            let mut n_fail = 0usize;
+            let mut lens: BTreeMap<usize, usize> = BTreeMap::new();
+            for (k, (origin, lines)) in cases.iter().enumerate() {
+                writeln!(f_in, "case {k} {origin}").unwrap();
+                for l in lines {
+                    writeln!(f_in, "{l}").unwrap();
+                }
+                let o = run_guarded(suite.as_ref(), lines);
+                writeln!(f_impl, "case {k} {origin}").unwrap();
+                for l in &o.obs {
+                    writeln!(f_impl, "{l}").unwrap();
+                }
+                writeln!(f_or, "case {k} {origin}").unwrap();
+                for l in &o.fails {
+                    writeln!(f_or, "FAIL {l}").unwrap();
+                    n_fail += 1;
+                }
+                let is_new = distinct.insert(lines.join("\n"));
+                let nontrivial = o.tags.iter().any(|t| t == "nontrivial");
+                if is_new && nontrivial {
+                    distinct_nontrivial += 1;
+                }
+                for t in o.tags {
+                    *tags.entry(t).or_default() += 1;
+                }
+                let bucket = match lines.len() { 0..=4 => 4, 5..=16 => 16, 17..=64 => 64, _ => 1000 };
+                *lens.entry(bucket).or_default() += 1;
+            }
+            let stats = serde_json::json!({
+                "suite": suite_name, "seed": seed, "cases": cases.len(), "fixed_cases": n_fixed,
+                "random_cases": n, "distinct": distinct.len(), "distinct_nontrivial": distinct_nontrivial,
+                "oracle_failures": n_fail, "tags": tags,
+                "case_length_buckets_le": lens,
+            });
+            fs::write(out_dir.join(format!("{suite_name}.stats.json")), serde_json::to_string_pretty(&stats).unwrap()).unwrap();
+        }
+        other => {
+            eprintln!("unknown command {other}");
+            std::process::exit(2);
+        }
+    }
+}
